@@ -324,18 +324,30 @@ def remove (F : TFacts) (op target : List J) : Prog Unit := do
 
 /-! ### `dedupeOrderedItems`, `addResponseHeaders` -/
 
+/-- the id an `orderedItems` element is de-duplicated by -/
+def dedupeKey (F : TFacts) (j : J) : Prog Iri := do
+  let id ← (match elemOf F j with
+    | .emb v => liftLib (getId F v)
+    | .iri u => pure u
+    | .other _ => Prog.fail .lib)
+  strOf "dedupeOrderedItems: id.String() on nil" id
+
+/-- the index/Remove loop of `dedupeOrderedItems`: an element whose id was seen before is removed -/
+def dedupeGo (F : TFacts) : List J → List Iri → Prog (List J)
+  | [], _ => pure []
+  | j :: rest, seen => do
+    let id ← dedupeKey F j
+    if seen.contains id then dedupeGo F rest seen
+    else do
+      let r ← dedupeGo F rest (id :: seen)
+      pure (j :: r)
+
 /-- `dedupeOrderedItems(oc)`: later duplicates (by id) removed, order otherwise kept -/
 def dedupeOrderedItems (F : TFacts) (oc : J) : Prog J :=
   match prop F oc "orderedItems" with
   | none => pure oc
   | some xs => do
-    let (kept, _) ← xs.foldlM (fun (st : List J × List Iri) j => do
-        let id ← match elemOf F j with
-          | .emb v => liftLib (getId F v)
-          | .iri u => pure u
-          | .other _ => Prog.fail .lib
-        let id ← strOf "dedupeOrderedItems: id.String() on nil" id
-        if st.2.contains id then pure st else pure (st.1 ++ [j], st.2 ++ [id])) ([], [])
+    let kept ← dedupeGo F xs []
     pure (if kept.length == xs.length then oc else setList oc "orderedItems" kept)
 
 def contentTypeValue : String := "application/ld+json; profile=\"https://www.w3.org/ns/activitystreams\""
